@@ -55,7 +55,14 @@ ASSUMPTIONS = ["POSIX paths; no symlinks on the way up (abspath does not resolve
                "the state of the loader object, the working directory and the filesystem"]
 
 KINDS = ["none", "module", "package", "both", "baredir"]
-NAMES = ["tasks", "mycoll", "a.b"]  # the last one: a collection name containing a dot (module `a.b.py`, package `a.b/`)
+NAMES = ["tasks", "mycoll", "a.b", "__init__"]  # a dotted name (module `a.b.py`, package `a.b/`); `__init__`: the module IS `<dir>/__init__.py`
+# names that are special to Python's import machinery or to path handling (own sweep over small layouts): the module
+# the process runs as, the byte-code cache directory, hidden / trailing-dot / dashed / spaced names, a stdlib module
+# that is already imported, a directory on the way up (`d1` is a level of every chain), a name ending in `.py`.
+# Not in the vocabulary: `invoke` (a tasks module cannot import the library under that name: Python, not the loader),
+# `os` / `sys` (binding sys.modules[name] to a tasks module would endanger the harness process), `.` and `..` (never
+# directory entries), `sibmark` / `psib` (the harness's own sibling files).
+SPECIAL_NAMES = ["__main__", "__pycache__", ".hidden", "trail.", "my-tasks", "my tasks", "json", "d1", "tasks.py"]
 FORMS = ["abs", "trailing", "rel", "dotrel", "relup", "absup", "none"]
 
 
@@ -207,7 +214,10 @@ def clean_imports(name, cwd):
     old_path = list(sys.path)
     old_dwb = sys.dont_write_bytecode
     drop = (name, "sibmark", "psib")
-    for m in [m for m in sys.modules if m in drop or m.startswith(name + ".")]:
+    # a collection may be named like a module the process already has (json, __main__): the loader binds
+    # sys.modules[name] to what it loads; whatever was there before is put back afterwards
+    saved = {m: sys.modules[m] for m in sys.modules if m in drop or m.startswith(name + ".")}
+    for m in saved:
         del sys.modules[m]
     importlib.invalidate_caches()
     os.chdir(cwd)
@@ -222,6 +232,7 @@ def clean_imports(name, cwd):
         sys.dont_write_bytecode = old_dwb
         for m in [m for m in sys.modules if m in drop or m.startswith(name + ".")]:
             del sys.modules[m]
+        sys.modules.update(saved)
 
 
 def run_loader(startarg, name, cwd):
@@ -486,7 +497,11 @@ def model_line(name, cwd, eff_start, layout):
 
 def canon_impl(r):
     if r["r"] == "ok":
-        kind = "package" if os.path.basename(r["file"]) == "__init__.py" else "module"
+        # what was loaded says itself whether it is the module or the package of its level (a collection may be called
+        # `__init__`: then the plain module is `<dir>/__init__.py`); the file name is only the fallback
+        mark = r.get("mark") or ""
+        kind = mark.split(":")[1] if mark.count(":") == 1 and mark.split(":")[1] in ("module", "package") else (
+            "package" if os.path.basename(r["file"]) == "__init__.py" else "module")
         return "%s %s %s %s" % (kind, enc_path(os.path.abspath(r["file"])), enc_path(r["syspath"] or "?"), enc_path(os.path.abspath(r["parent"])))
     if r["r"] == "notfound":
         return "notfound"
@@ -923,11 +938,22 @@ def run(ctx):
     lines, pending = [], []
     prog_every = 7 if big else 5
     counter = 0
-    layouts = [(k, None) for k in layouts] + named_layouts(rng, ctx.n(70, 1200), 2 if not big else 3)
-    for li, (kinds, dirnames) in enumerate(layouts):
-        name = NAMES[li % len(NAMES)]
+    layouts = [(k, None, None) for k in layouts] + [(k, d, None) for k, d in named_layouts(rng, ctx.n(70, 1200), 2 if not big else 3)]
+    for sname in SPECIAL_NAMES:  # every special name: all layouts of depth <= 1, a few deeper ones, a few with named directories
+        for depth in (0, 1):
+            for kinds in itertools.product(KINDS, repeat=depth + 1):
+                layouts.append((list(kinds), None, sname))
+        for _ in range(ctx.n(4, 40)):
+            layouts.append(([rng.choice(KINDS) for _ in range(rng.choice([3, 4]))], None, sname))
+        layouts += [(k, d, sname) for k, d in named_layouts(rng, ctx.n(4, 40), 0)]
+    for li, (kinds, dirnames, fixed_name) in enumerate(layouts):
+        name = fixed_name or NAMES[li % len(NAMES)]
         if dirnames is not None:
-            dirnames = [name if d == "<name>" else (NAMES[(li + 1) % len(NAMES)] if d == "<other>" else d) for d in dirnames]
+            # `__init__`: a module inside a directory of that name would turn the directory into a package of the level above
+            own = name if name != "__init__" else "<other>"
+            dirnames = [own if d == "<name>" else d for d in dirnames]
+            dirnames = [(NAMES[(li + 1) % len(NAMES)] if NAMES[(li + 1) % len(NAMES)] not in (name, "__init__") else "mycoll")
+                        if d == "<other>" else d for d in dirnames]
         tree = Tree(kinds, name, dirnames)
         try:
             lay = tree.layout()
@@ -935,7 +961,7 @@ def run(ctx):
                 forms = FORMS
                 if big and len(kinds) == 5:
                     forms = ["abs"] + rng.sample(FORMS[1:], 2)
-                if dirnames is not None:
+                if dirnames is not None or fixed_name is not None:
                     forms = ["abs", "none"] + rng.sample(["trailing", "rel", "dotrel", "relup", "absup"], 2)
                 for form in forms:
                     sub = rng.randrange(1 << 30)
@@ -954,6 +980,9 @@ def run(ctx):
                     why = oracle_loader(tree, s, r)
                     out.case(case, any(k != "none" for k in kinds))
                     out.hist["form:" + form] += 1
+                    if name in SPECIAL_NAMES or name == "__init__":
+                        out.hist["special_name:%s" % name] += 1
+                        out.hist["special_name:%s:%s" % (name, r["r"] if r["r"] != "ok" else r["mark"].split(":")[1] if r.get("mark") else "ok?")] += 1
                     if "." in name:
                         out.hist["dotted_name"] += 1
                         out.hist["dotted_name:" + (r["r"] if r["r"] != "ok" else r["mark"].split(":")[1] if r.get("mark") else "ok?")] += 1
